@@ -1055,6 +1055,41 @@ theorem inv_rename_core (P : Params V) (T : Tables) (hcov : Coverage T = true) (
     rw [hss.regs, hrg] at hr'
     exact hinv.rdef r hr'
 
+/-- two switching rounds and a final post, as one delivery list over the final structure -/
+theorem two_switches_eq (T : Tables) (w1 : World V) (sel1 sel2 : CompS → Bool) (nw1 nw2 : Watch) (cb1 cb2 : String)
+    (name : String) (ns : List String) :
+    let wB : World V := { w1 with glyphs := mapAllComps w1.glyphs (setWatch sel1 nw1) }
+    let wS : World V := { wB with glyphs := mapAllComps wB.glyphs (setWatch sel2 nw2) }
+    let w3 := switchAndPost T (switchAndPost T w1 sel1 nw1 cb1) sel2 nw2 cb2
+    applyDeliv T w3 (glyphDeliv w3.fuel T w3.glyphs name ns) =
+      applyDeliv T wS (switchDs T w1 sel1 nw1 cb1 ++ switchDs T wB sel2 nw2 cb2 ++ glyphDeliv wS.fuel T wS.glyphs name ns) := by
+  intro wB wS w3
+  have e2 : switchAndPost T w1 sel1 nw1 cb1 = applyDeliv T wB (switchDs T w1 sel1 nw1 cb1) := rfl
+  have s2 := sameStruct_applyDeliv T wB (switchDs T w1 sel1 nw1 cb1)
+  have e3 : w3 = applyDeliv T wS (switchDs T w1 sel1 nw1 cb1 ++ switchDs T wB sel2 nw2 cb2) := by
+    show switchAndPost T (switchAndPost T w1 sel1 nw1 cb1) sel2 nw2 cb2 = _
+    rw [e2, switchAndPost_eq, switchDs_congr T s2.glyphs s2.fuel, s2.glyphs, applyDeliv_with_glyphs, applyDeliv_append]
+  have s3 := sameStruct_applyDeliv T wS (switchDs T w1 sel1 nw1 cb1 ++ switchDs T wB sel2 nw2 cb2)
+  rw [e3, s3.fuel, s3.glyphs, applyDeliv_append]
+
+/-- `glyph.name = new` -/
+theorem inv_rename (P : Params V) (T : Tables) (hcov : Coverage T = true) (w : World V) (old new : String)
+    (hinv : Inv P T w) (hdom : Dom w) (hdom' : Dom (doRename T w old new).1) : Inv P T (doRename T w old new).1 := by
+  unfold doRename at hdom' ⊢
+  cases hg : AL.get? w.glyphs old with
+  | none => simpa [hg] using hinv
+  | some g =>
+    by_cases hc : (AL.contains w.glyphs new || decide (old = new)) = true
+    · simpa [hg, hc] using hinv
+    · have hc' : (AL.contains w.glyphs new || decide (old = new)) = false := by simpa using hc
+      rw [Bool.or_eq_false_iff] at hc'
+      simp only [hg, hc, if_false] at hdom' ⊢
+      rw [two_switches_eq] at hdom' ⊢
+      have hdS := Dom.congr (sameStruct_applyDeliv T _ _).symm hdom'
+      exact inv_rename_core P T hcov w _ _ _ old new g w.clock hinv hdom hg
+        (get?_none_of_not_contains hc'.1) (by simpa using hc'.2)
+        rfl rfl rfl rfl rfl rfl rfl rfl rfl rfl rfl hdS
+
 /-- `Layer.newGlyph` on an absent name -/
 theorem inv_newGlyph (P : Params V) (T : Tables) (hcov : Coverage T = true) (w : World V) (name : String)
     (hinv : Inv P T w) (hdom : Dom w) (hdom' : Dom (doNewGlyph T w name).1) : Inv P T (doNewGlyph T w name).1 := by
